@@ -205,6 +205,7 @@ def isolated_replay(prop: str, rec: Dict[str, Any]) -> Tuple[bool, str]:
     import subprocess
     import tempfile
 
+    os.makedirs(os.path.join(ROOT, "replays"), exist_ok=True)
     with tempfile.NamedTemporaryFile("w", suffix=".json", delete=False, dir=os.path.join(ROOT, "replays")) as f:
         json.dump({"property": prop, "replay": rec}, f, default=str)
         path = f.name
